@@ -1,6 +1,7 @@
 import Secp.Proofs.Schnorr
 import Secp.Props.C03
 import Secp.Proofs.Slices
+import Secp.Proofs.BytesProgSig
 /-
   Props/C11 — EC-Schnorr-DCRv0 signing and verification follow the published scheme.
   Model: `Secp.Model.schnorrSignM`, `schnorrSign`, `schnorrVerifyM`, `schnorrParse`,
@@ -65,5 +66,14 @@ theorem verify_iff_unconditional (B : Bytes → Bytes) (hB : ∀ x, (B x).length
     `contracts_justified`) this is what makes the value-level model above faithful to the limb code. -/
 theorem schnorr_field_arithmetic_exact :
     Secp.Proofs.Slices.entriesOK ["github.com/ModChain/secp256k1/schnorr.schnorrVerify", "github.com/ModChain/secp256k1/schnorr.schnorrSign", "github.com/ModChain/secp256k1/schnorr.ParseSignature", "github.com/ModChain/secp256k1/schnorr.Signature.Serialize", "github.com/ModChain/secp256k1/schnorr.Signature.IsEqual", "github.com/ModChain/secp256k1/schnorr.NewSignature"] = true := by decide +kernel
+
+
+/-! ### schnorr.ParseSignature as REGENERATED from schnorr/signature.go (tools/gotr pass T7) -/
+
+/-- the statement-by-statement translation of `ParseSignature` (exact length 64, r < P through `FieldVal.SetByteSlice`, s < N
+    through `ModNScalar.SetByteSlice`) never panics and is the hand-written model `schnorrParse` of the codec theorems above -/
+theorem schnorrParse_regenerated (b : Bytes) :
+    Secp.Gen.BytesProg.schnorrParse b = Secp.Proofs.BytesProgSig.ofExcept (schnorrParse b) :=
+  Secp.Proofs.BytesProgSig.schnorrParse_gen_eq_model b
 
 end Secp.Props.C11
